@@ -135,15 +135,16 @@ def main() -> int:
     print(f"  Prefilter without NoEnabling: {'refuted' if hit else 'NOT REFUTED'}")
     ok = ok and hit
     shutil.rmtree(d, ignore_errors=True)
-    # ---- non-vacuity of WalrusIf.tla: the rule of the pinned commit must be refuted
-    d = scratch("walrusbug")
-    shutil.copy(spec / "WalrusIf.tla", d / "WalrusIf.tla")
-    (d / "WalrusIf.cfg").write_text((spec / "WalrusIf.cfg").read_text().replace('RuleVariant = "tree"', 'RuleVariant = "pinned"'))
-    r = tlc.run_tlc(d, "WalrusIf", "WalrusIf.cfg", timeout=300, cont=True)
-    hit = any(v[1] == "C08_DropsOnlyUnreadBindings" for v in r.violated)
-    print(f"  WalrusIf rule of the pinned commit: {'refuted' if hit else 'NOT REFUTED'}")
-    ok = ok and hit
-    shutil.rmtree(d, ignore_errors=True)
+    # ---- non-vacuity of WalrusIf.tla: the rules of the pinned commit and of the first repair must be refuted
+    for variant in ("pinned", "private"):
+        d = scratch("walrusbug")
+        shutil.copy(spec / "WalrusIf.tla", d / "WalrusIf.tla")
+        (d / "WalrusIf.cfg").write_text((spec / "WalrusIf.cfg").read_text().replace('RuleVariant = "tree"', f'RuleVariant = "{variant}"'))
+        r = tlc.run_tlc(d, "WalrusIf", "WalrusIf.cfg", timeout=300, cont=True)
+        hit = any(v[1] == "C08_DropsOnlyUnreadBindings" for v in r.violated)
+        print(f"  WalrusIf rule variant {variant}: {'refuted' if hit else 'NOT REFUTED'}")
+        ok = ok and hit
+        shutil.rmtree(d, ignore_errors=True)
     # ---- the trace specification rejects a corrupted trace (binding bites)
     from . import tracecheck
 
